@@ -8,7 +8,8 @@
    Engine.dbOffset                                    eoff
    bytes accepted by binlog.Append / read by replica  bl   (list of levs; offsets = cumulative sizes)
    committedInfo.offset                               comm
-   what the binlog really has on disk (fsync)         durable (ghost: known to the binlog, not to the engine)
+   what of the binlog is durable (fsync / quorum)      durable (ghost: known to the binlog, not to the engine;
+                                                       on a replica it may lag behind what was handed to Apply)
    Engine.waitQ                                       waitq
    closed wait channels                               acked (ghost)
    binlogEngineReplicaImpl.state == waitToCommit      rwait
@@ -53,7 +54,9 @@ Definition kv0 : list Z := [0; 0; 0].
 
 Record db := mkdb { kv : list Z; off : Z }.
 
-Inductive ticket := TW (i : nat) | TR (id : nat) (o : Z).
+(* TW i: the Do that appended binlog event number i; TR id o v: read-only Do number id, which saw the write
+   transaction with stored offset o and contents v *)
+Inductive ticket := TW (i : nat) | TR (id : nat) (o : Z) (v : list Z).
 Inductive qitem := QBody (l : lev) | QSkip (n : Z).
 
 Record st := mkst {
@@ -162,7 +165,7 @@ Definition restart (s : st) (keep : nat) : st :=
 Inductive op :=
 | ODo (l : lev) (flags : Z)     (* Engine.Do; flags: 1 callback fails, 2 binlog adds a service lev, 4 mustCommitNow, 8 Commit arrives inside AppendASAP *)
 | ORead                         (* Engine.Do with a read-only callback (empty event) *)
-| OFsync (n : nat)              (* the binlog writer has n levs on disk (no callback yet) *)
+| OFsync (n : nat)              (* n levs of the binlog are durable (master: writer fsync; replica: the source's commit position), no callback yet *)
 | OCommit (n : nat)             (* Engine.Commit(offset after n levs) *)
 | OTick                         (* one txLoop iteration *)
 | ODeliver (l : lev) (timer : bool)  (* replica: reader hands one lev to Engine.Apply / Engine.Skip *)
@@ -208,7 +211,7 @@ Definition do_write (l : lev) (flags : Z) (s : st) : st :=
     do_wait (length (bl s)) predicted real wc now (do_append l flags (wc || now) s).
 
 Definition do_read (s : st) : st :=
-  let t := TR (nread s) (off (dbt s)) in
+  let t := TR (nread s) (off (dbt s)) (kv (dbt s)) in
   let s1 := set_nread s (S (nread s)) in
   match mode s with
   | WaitCommit =>
@@ -225,7 +228,7 @@ Definition step (s : st) (o : op) : st :=
   | ORead => do_read s
   | OFsync n =>
       let d := bsize (firstn n (bl s)) in
-      if negb (replica s) && (durable s <=? d) then set_bl s (bl s) d else s
+      if durable s <=? d then set_bl s (bl s) d else s
   | OCommit n =>
       let o := bsize (firstn n (bl s)) in
       if o <=? durable s then commit_cb o s else s
@@ -237,7 +240,7 @@ Definition step (s : st) (o : op) : st :=
   | ODeliver l t =>
       if replica s then
         let s1 := deliver_core l t s in
-        set_bl s1 (bl s1 ++ [l]) (bsize (bl s1 ++ [l]))
+        set_bl s1 (bl s1 ++ [l]) (durable s1)
       else s
   | OCrash keep =>
       if (Nat.leb keep (length (bl s))) && (durable s <=? bsize (firstn keep (bl s))) then restart s keep else s
